@@ -801,6 +801,16 @@ class XR(Sym):
             return NotImplemented
         return xdiv(self, o)
 
+    def __mod__(self, o):
+        """Python / numpy floored modulo by a positive numeral (exact real arithmetic)"""
+        o = R(o)
+        if o is None or not self.plain or not o.plain or not _is_numeral(o.v):
+            return NotImplemented
+        if not z3.is_true(z3.simplify(o.v > 0)):
+            return NotImplemented
+        q = z3.ToInt(self.v / o.v)
+        return XR(self.v - o.v * z3.ToReal(q))
+
     def __rtruediv__(self, o):
         o = R(o)
         if o is None:
